@@ -266,7 +266,9 @@ class Gen:
         if rng.random() < 0.05 and cls is None:
             return ("T", [("L", []), ("L", [])])
         # admissible (S, G, C)
-        ng = rng.randint(1, min(len(table), 6))
+        # any number of signals the constellation defines (Galileo has 19): small sets most often, the whole table and
+        # its neighbours regularly
+        ng = rng.choice([rng.randint(1, min(len(table), 6)), rng.randint(1, min(len(table), 6)), rng.randint(1, len(table)), len(table), max(1, len(table) - 1), max(1, len(table) - 2)])
         ns = rng.randint(1, max(1, min(64 // ng, rng.choice([1, 2, 4, 8, 64]))))
         if cls == "toomany":
             ng = rng.randint(2, min(len(table), 13))
